@@ -238,12 +238,12 @@ def run_replay(binary, jobs, scratch, tag):
     return res, sorted(glob.glob(os.path.join(tdir, '*.ndjson')))
 
 
-def run_random(binary, n, length, seed_, scratch, tag):
+def run_random(binary, n, length, seed_, scratch, tag, overlap=0):
     tdir = scratch.sub('traces-' + tag)
 
     def args(a, b, sdir):
         return ['-mode', 'random', '-seed', str(seed_), '-len', str(length), '-from', str(a), '-to', str(b), '-scratch', sdir,
-                '-trace', os.path.join(tdir, 'r-%d-%s' % (a, os.path.basename(sdir)))]
+                '-overlap', str(overlap), '-trace', os.path.join(tdir, 'r-%d-%s' % (a, os.path.basename(sdir)))]
     res = vlib.run_children(binary, args, n, scratch, per_item_timeout=60)
     return res, sorted(glob.glob(os.path.join(tdir, '*.ndjson')))
 
@@ -424,6 +424,11 @@ def check(pid, tier, scratch, replay):
     # 3. code -> spec: seeded random traces
     rp = plan['random']
     rres, rfiles = run_random(binary, rp['traces'], rp['length'], seed_, scratch, 'rnd')
+    # ... and the same driver with a second writer that now and then calls BeginTx while a write transaction is open
+    # and waits for the writer lock (an empty transaction, rolled back at once): the recorded history stays serial,
+    # so the same judge applies - what an open transaction reads and commits must not depend on a waiting writer
+    ores, ofiles = run_random(binary, rp['traces'] // 2, rp['length'], seed_ + 500009, scratch, 'ovl', overlap=3)
+    rres, rfiles = rres + ores, rfiles + ofiles
     infra = [(i, r) for i, r in enumerate(results) if r is None or r.get('died') or r.get('infra') or (r.get('err') or '').startswith(('setup:', 'harness:'))]
     rinfra = [(i, r) for i, r in enumerate(rres) if r is None or r.get('died') or r.get('infra') or r.get('err')]
     if infra or rinfra:
@@ -476,8 +481,8 @@ def check(pid, tier, scratch, replay):
             if nd:
                 hist = 'failing step %d: %s | %s' % (nd[0]['step'], describe_op(j['h'][nd[0]['step']]), hist)
         else:
-            m = re.match(r'rnd-(\d+)-(\d+)$', tid)
-            obj = dict(property=pid, kind='random', seed=int(m.group(1)), index=int(m.group(2)), length=rp['length'],
+            m = re.match(r'(?:rnd|ovl(\d+))-(\d+)-(\d+)$', tid)
+            obj = dict(property=pid, kind='random', seed=int(m.group(2)), index=int(m.group(3)), overlap=int(m.group(1) or 0), length=rp['length'],
                        deviation=first, trace=trace_of(first['file'], tid)[:first['line'] + 2],
                        how='bin/check %s %s --replay <this file>' % (pid, tier))
             hist = describe([l for l in obj['trace'] if l.get('t') == 'op'])
@@ -562,8 +567,8 @@ def check(pid, tier, scratch, replay):
 def replay_one(pid, tier, scratch, replay, binary, enabled):
     obj = json.load(open(replay))
     if obj.get('kind') == 'random':
-        res, files = run_random(binary, obj['index'] + 1, obj['length'], obj['seed'], scratch, 'one')
-        tid = 'rnd-%d-%d' % (obj['seed'], obj['index'])
+        res, files = run_random(binary, obj['index'] + 1, obj['length'], obj['seed'], scratch, 'one', overlap=obj.get('overlap', 0))
+        tid = ('ovl%d-%d-%d' % (obj['overlap'], obj['seed'], obj['index'])) if obj.get('overlap') else 'rnd-%d-%d' % (obj['seed'], obj['index'])
     else:
         j = obj['job']
         res, files = run_replay(binary, [j], scratch, 'one')
